@@ -450,7 +450,12 @@ fn check_stable(src: &mut Src) -> CaseResult {
         pool.push(k);
         pool.push(k2);
     }
-    let n = src.below(9);
+    // mostly short arrays, but also arrays beyond the length up to which sorting algorithms fall back
+    // to insertion sort (an unstable algorithm reorders equal elements only above ~20 elements)
+    let n = match src.weighted(&[5, 3]) {
+        0 => src.below(9),
+        _ => 21 + src.below(140),
+    };
     let mut xs: Vec<MVal> = Vec::new();
     for i in 0..n {
         let k = src.pick(&pool).clone();
@@ -530,7 +535,7 @@ fn check_stable(src: &mut Src) -> CaseResult {
     }
     let ties = groups.iter().any(|g| g.len() > 1);
     let mut ok = CaseOk::new(n >= 2 && ties, fnv_str(&[&format!("{input:?}")]));
-    ok = ok.class(if ties { "with-ties" } else { "no-ties" });
+    ok = ok.class(if ties { "with-ties" } else { "no-ties" }).class(if n > 20 { "longer-than-20" } else { "short" });
     if src.sample {
         ok = ok.desc(Some(case()));
     }
@@ -620,6 +625,6 @@ pub fn run(mut rep: Report) -> ! {
     let n_rand = rep.n(60_000, 3_000_000);
     rep.random("pairs-random", n_rand, 160, check_random_pair);
     let n_st = rep.n(30_000, 1_000_000);
-    rep.random("sort-stability", n_st, 200, check_stable);
+    rep.random("sort-stability", n_st, 400, check_stable);
     rep.finish()
 }
